@@ -123,6 +123,8 @@ enum FormatDirective {
 #[derive(Debug, PartialEq, Eq)]
 enum FormatComponent {
     Literal(String),
+    /// A byte that is not valid UTF-8 on its own (from an octal escape).
+    Byte(u8),
     Flush,
     Directive {
         directive: FormatDirective,
@@ -140,14 +142,6 @@ impl FormatStringParser<'_> {
         self.string
             .chars()
             .next()
-            .ok_or_else(|| "Unexpected EOF".into())
-    }
-
-    fn peek(&self, count: usize) -> Result<&str, Box<dyn Error>> {
-        // `count` is in bytes: fail (rather than panic) when it runs past the
-        // end or into the middle of a multi-byte character.
-        self.string
-            .get(0..count)
             .ok_or_else(|| "Unexpected EOF".into())
     }
 
@@ -170,19 +164,25 @@ impl FormatStringParser<'_> {
         const OCTAL_LEN: usize = 3;
         const OCTAL_RADIX: u32 = 8;
 
-        // Try parsing an octal sequence first.
+        // Try parsing an octal sequence first: one to three octal digits.
         let first = self.front()?;
         if first.is_digit(OCTAL_RADIX) {
-            if let Ok(code) = self.peek(OCTAL_LEN).and_then(|octal| {
-                u32::from_str_radix(octal, OCTAL_RADIX).map_err(std::convert::Into::into)
-            }) {
-                // safe to unwrap: .peek() already succeeded above.
-                let octal = self.advance_by(OCTAL_LEN).unwrap();
-                return match char::from_u32(code) {
-                    Some(c) => Ok(FormatComponent::Literal(c.to_string())),
-                    None => Err(format!("Invalid character value: \\{octal}").into()),
-                };
-            }
+            let digits = self
+                .string
+                .chars()
+                .take(OCTAL_LEN)
+                .take_while(|c| c.is_digit(OCTAL_RADIX))
+                .count();
+            // The digits are ASCII, so their count is also their length in bytes.
+            let octal = self.advance_by(digits)?;
+            let code = u32::from_str_radix(octal, OCTAL_RADIX)?;
+            // Like printf(3), the value is a single byte (values above \377 wrap).
+            let byte = (code % 256) as u8;
+            return Ok(if byte.is_ascii() {
+                FormatComponent::Literal(char::from(byte).to_string())
+            } else {
+                FormatComponent::Byte(byte)
+            });
         }
 
         self.advance_one()?;
@@ -612,6 +612,7 @@ impl Printf {
         for component in &self.format.components {
             match component {
                 FormatComponent::Literal(literal) => write!(out, "{literal}").unwrap(),
+                FormatComponent::Byte(byte) => out.write_all(&[*byte]).unwrap(),
                 FormatComponent::Flush => out.flush().unwrap(),
                 FormatComponent::Directive {
                     directive,
